@@ -165,12 +165,20 @@ class Interp:
         return str(r)
 
     def branch(self, cond, site="") -> bool:
-        """Fork on a z3 Bool."""
-        cond = z3.simplify(cond)
+        """Fork on a z3 Bool.  A side that the (fast, in-process) solver finds infeasible is pruned,
+        and the pruning is recorded as an obligation `prune` that goes through the same
+        cross-checked discharge as every other obligation."""
         if z3.is_true(cond):
             return True
         if z3.is_false(cond):
             return False
+        sc = z3.simplify(cond)
+        if z3.is_true(sc) or z3.is_false(sc):
+            # trivial after rewriting: justified by an obligation as well (the rewriter is not trusted)
+            d = z3.is_true(sc)
+            if _has_seq(cond):
+                self.obligations.append(Obligation("prune", "prune", cond if d else z3.Not(cond), self.pc, (("prune", site), tuple(self.decisions[: self.pos])), ""))
+            return d
         if self.pos < len(self.decisions):
             d = self.decisions[self.pos]
             self.pos += 1
@@ -179,11 +187,14 @@ class Interp:
         t = self.check(cond)
         f = self.check(z3.Not(cond))
         if t == "unsat" and f == "unsat":
+            self.obligations.append(Obligation("prune", "prune", z3.BoolVal(False), self.pc, (("prune-both", site), tuple(self.decisions[: self.pos])), ""))
             raise PathAbort("infeasible")
         if t == "unsat":
             d = False
+            self.obligations.append(Obligation("prune", "prune", z3.Not(cond), self.pc, (("prune", site), tuple(self.decisions[: self.pos])), ""))
         elif f == "unsat":
             d = True
+            self.obligations.append(Obligation("prune", "prune", cond, self.pc, (("prune", site), tuple(self.decisions[: self.pos])), ""))
         else:
             d = True
             self.alternatives.append(self.decisions[: self.pos] + [False])
@@ -208,7 +219,6 @@ class Interp:
         return n - 1
 
     def oblige(self, name, goal, kind="safety", site=None, text=""):
-        goal = z3.simplify(goal) if not z3.is_quantifier(goal) else goal
         ob = Obligation(name, kind, goal, self.pc, (site, tuple(self.decisions[: self.pos])), text)
         self.obligations.append(ob)
         # afterwards the goal may be assumed on this path
@@ -452,7 +462,7 @@ class Interp:
         if len(parts) == 1:
             t = parts[0]
         elif parts:
-            t = z3.Concat(*parts)
+            t = seq_concat(*parts)
         return SV(ty, t)
 
     def seq_of(self, v, elem_hint: Optional[Ty] = None) -> SV:
@@ -715,7 +725,7 @@ class Interp:
         dom = z3.Store(ty.dom(d.term), kt, z3.BoolVal(True))
         val = z3.Store(ty.val(d.term), kt, vt)
         if ty.ordered:
-            keys = z3.If(z3.Select(ty.dom(d.term), kt), ty.keys(d.term), z3.Concat(ty.keys(d.term), z3.Unit(kt)))
+            keys = z3.If(z3.Select(ty.dom(d.term), kt), ty.keys(d.term), seq_concat(ty.keys(d.term), z3.Unit(kt)))
             return SV(ty, ty.mk(dom, val, keys))
         return SV(ty, ty.mk(dom, val))
 
@@ -754,6 +764,46 @@ class Interp:
                                 return True
                             cc = BUILTIN_EXC_BASES.get(cc)
         return False
+
+
+def _has_seq(t) -> bool:
+    seen = set()
+    stack = [t]
+    while stack:
+        x = stack.pop()
+        i = x.get_id()
+        if i in seen:
+            continue
+        seen.add(i)
+        if z3.is_seq(x) or (z3.is_app(x) and x.decl().kind() in (z3.Z3_OP_SEQ_NTH, z3.Z3_OP_SEQ_LENGTH, z3.Z3_OP_SEQ_AT, z3.Z3_OP_SEQ_CONTAINS)):
+            return True
+        if z3.is_app(x):
+            stack.extend(x.children())
+        elif z3.is_quantifier(x):
+            stack.append(x.body())
+    return False
+
+
+def seq_concat(*parts):
+    """n-ary, flattened concatenation (z3 5.1.0 mis-rewrites nth over left-nested concats)."""
+    flat = []
+    for p in parts:
+        if z3.is_app(p) and p.decl().kind() == z3.Z3_OP_SEQ_CONCAT:
+            stack = list(p.children())
+            sub = []
+            while stack:
+                c = stack.pop(0)
+                if z3.is_app(c) and c.decl().kind() == z3.Z3_OP_SEQ_CONCAT:
+                    stack = list(c.children()) + stack
+                else:
+                    sub.append(c)
+            flat += sub
+        else:
+            flat.append(p)
+    flat = [p for p in flat if not (z3.is_app(p) and p.decl().kind() == z3.Z3_OP_SEQ_EMPTY)] or flat[:1]
+    if len(flat) == 1:
+        return flat[0]
+    return z3.Concat(*flat)
 
 
 def _m(s: str) -> str:
